@@ -17,6 +17,8 @@ def nodupInts : List Int → Bool
   under test) → `covered` when the expectation table classifies it, else `uncovered`;
 * `gen <grammar> <h₁> <h₂> …` (digest of all files written, one per run: in-process repetitions and child
   processes with GOMAXPROCS 1 and 16) → `same` / `differ`;
+* `hist <grammar B> <grammar A> <digest of B in a fresh process> <digest of B generated after A in one process>`
+  → `same` / `history`;
 * `shipped <grammar> <files> <differing>` (regeneration of a shipped grammar vs the committed files) →
   `match` / `mismatch`;
 * `inv remap <grammar> <values>`: hypothesis of `genReverseLookup` (values of an `ActionVars.Remap`) →
@@ -26,6 +28,7 @@ def eval : List String → Option String
   | ["site", file, func, hash, ctx] =>
     some (if (lookupSite file func hash ctx).isSome then "covered" else "uncovered")
   | "gen" :: _ :: hashes => some (if allSame hashes then "same" else "differ")
+  | ["hist", _, _, fresh, after] => some (if fresh == after then "same" else "history")
   | ["shipped", _, _, ndiff] => do
     let n ← parseNat? ndiff
     some (if n == 0 then "match" else "mismatch")
@@ -46,6 +49,7 @@ def handle (args : List String) : Option String :=
   | "judge" :: _ :: "::" :: rest =>
     match eval rest with
     | some "differ" => some "violates: the generated files differ between runs of the same grammar"
+    | some "history" => some "violates: the files of a grammar depend on what was generated earlier in the same process"
     | some "mismatch" => some "violates: regenerating the shipped grammar does not reproduce the committed files"
     | some _ => some "holds"
     | none => none
